@@ -500,6 +500,52 @@ theorem C34_same_authority_same_connection (S : Std) (p : Patron) (t : Target) (
   obtain ⟨s, hes, hc, _⟩ := follow_same hok hd
   exact ⟨s, hes, hc⟩
 
+theorem rfindAux_not_mem (c : Char) (s : Str) (i : Nat) (acc : Option Nat) (h : c ∉ s) : rfindAux c s i acc = acc := by
+  induction s generalizing i acc with
+  | nil => rfl
+  | cons x xs ih =>
+    have hx : x ≠ c := fun e => h (by simp [e])
+    simp only [rfindAux, hx, if_false]
+    exact ih _ _ (fun e => h (by simp [e]))
+
+theorem normalizeHostPort_plain (h : Str) (port : Option Int) (d : Int) (hc : ':' ∉ h)
+    (hb : ∀ rest, h ≠ '[' :: rest) :
+    normalizeHostPort (some h) port d = .ok (h, match port with | none => d | some p => p) := by
+  unfold normalizeHostPort
+  have h1 : rfind ':' h = none := by unfold rfind; exact rfindAux_not_mem _ _ _ _ hc
+  have h2 : stripBrackets h = h := by
+    unfold stripBrackets
+    split
+    · rename_i rest; exact absurd rfl (hb rest)
+    · rfl
+  simp [h1, idxGt, h2]
+  cases port <;> rfl
+
+/-- **C34, a relative Location is resolved against the request's own authority** — partial: *given* that
+`urljoin`/`urlsplit` (hypotheses) resolve the Location text to the scheme, host and port of the request that was
+redirected — which is what they do for a relative reference, the base url being built from exactly those — the
+redirect target is that scheme, host and port, and (with a connection to that address) the request is reissued on the
+connection that is already open. -/
+theorem C34_relative_location_resolved_partial (S : Std) (p : Patron) (loc : Str) (ip : Str) (n : Nat)
+    (hs : p.req.scheme = sHttp ∨ p.req.scheme = sHttps)
+    (hsplit_host : (S.urlsplit (S.urljoin (baseUrl p.req) (locText S loc))).hostname = some p.req.hostname)
+    (hsplit_port : (S.urlsplit (S.urljoin (baseUrl p.req) (locText S loc))).port = some (some n)) (hn : (n : Int) = p.req.port)
+    (hsplit_scheme : (S.urlsplit (S.urljoin (baseUrl p.req) (locText S loc))).scheme = p.req.scheme)
+    (hplain : ':' ∉ p.req.hostname ∧ ∀ rest, p.req.hostname ≠ '[' :: rest)
+    (hres : S.resolve p.req.hostname = some ip) (hconn : p.conn.ip = ip ∧ p.conn.port = p.req.port) :
+    ∃ t, parseLocation S p.req (some loc) = .ok t ∧ t.hostname = p.req.hostname ∧ t.port = p.req.port
+      ∧ t.scheme = p.req.scheme ∧ ¬ Differs p ip t := by
+  have hsch : schemeOf p.req.scheme = p.req.scheme := by
+    rcases hs with h | h <;> rw [h] <;> decide
+  unfold parseLocation targetOfSplit
+  simp only [hsplit_port, hsplit_host, hsplit_scheme, hsch]
+  rw [normalizeHostPort_plain _ _ _ hplain.1 hplain.2]
+  refine ⟨_, rfl, rfl, ?_, rfl, ?_⟩
+  · simpa using hn
+  · unfold Differs
+    simp [hconn.1, hconn.2, hn]
+
+
 /-- the full statement wanted for the request target, for a given standard library `S`: an absolute-path
 Location `path?query` is reissued to that path (compared after `unquote`) -/
 def C34_target_full (S : Std) : Prop :=
@@ -591,5 +637,12 @@ example : (cpy.urlsplit tSec.path).path = tSec.path ∧ (cpy.urlsplit tSec.path)
     ∧ renderQuery cpy (updateQargsQuery cpy [] tSec.query).1 = tSec.query
     ∧ (cpy.urlsplit (cpy.quote tSec.path ++ ['?'] ++ tSec.query ++ ['#'])).geturl
         = cpy.quote tSec.path ++ (if tSec.query = [] then [] else '?' :: tSec.query) := by decide
+
+/-- `C34_relative_location_resolved_partial`: hypotheses satisfiable — CPython's answers for the relative Location
+`/q%3Fz?k=v` followed from `http://a.test:80/p` -/
+example : (cpy.urlsplit (cpy.urljoin (baseUrl pWit.req) (locText cpy "/q%3Fz?k=v".toList))).hostname = some pWit.req.hostname
+    ∧ (cpy.urlsplit (cpy.urljoin (baseUrl pWit.req) (locText cpy "/q%3Fz?k=v".toList))).port = some (some 80)
+    ∧ (cpy.urlsplit (cpy.urljoin (baseUrl pWit.req) (locText cpy "/q%3Fz?k=v".toList))).scheme = pWit.req.scheme
+    ∧ cpy.resolve pWit.req.hostname = some pWit.conn.ip := by decide
 
 end Ioflo.Redirect
